@@ -4,6 +4,7 @@ import (
 	"bytes"
 	"context"
 	"encoding/json"
+	"errors"
 	"fmt"
 	"io"
 	"math/rand"
@@ -784,6 +785,16 @@ func runFault(c faultCase) []Diff {
 		cbFail = c.At
 	case "cancel-before":
 		cancel()
+	case "cancel-cause-before":
+		// a context ended with a cause still is a cancelled context: errors.Is(err, context.Canceled)
+		c2, cancel2 := context.WithCancelCause(ctx)
+		cancel2(errors.New("the caller's own reason"))
+		ctx = c2
+	case "deadline-cause-before":
+		c2, cancel2 := context.WithTimeoutCause(ctx, time.Nanosecond, errors.New("the caller's own deadline reason"))
+		defer cancel2()
+		time.Sleep(time.Millisecond)
+		ctx = c2
 	case "cancel-after-bytes":
 		reader = &cancelReader{data: doc, at: c.At, cancel: cancel}
 	case "cancel-timer":
@@ -819,7 +830,7 @@ func runFault(c faultCase) []Diff {
 		case "mkdir":
 			jail := newJail()
 			defer os.RemoveAll(jail)
-			err = gtree.MkdirFromMarkdown(reader, append(opts, gtree.WithTargetDir(filepath.Join(jail, "t")))...)
+			err = gtree.MkdirFromMarkdown(reader, append(opts, gtree.WithTargetDir(filepath.Join(jail, "t")), gtree.WithFileExtensions([]string{"a", ".go"}))...)
 		case "verify":
 			jail := newJail()
 			defer os.RemoveAll(jail)
@@ -856,7 +867,7 @@ func runFault(c faultCase) []Diff {
 	cbSeen := cbCount
 	cbMu.Unlock()
 	switch c.Fault {
-	case "cancel-before":
+	case "cancel-before", "cancel-cause-before", "deadline-cause-before":
 		if cls != "ctx" {
 			d = append(d, Diff{What: "context cancelled before the call: the context's error must be returned", Real: cls, Model: "ctx"})
 		}
@@ -962,6 +973,22 @@ func runC11(ctx *Ctx) *Report {
 		}
 	}
 	cases = append(cases, faultCase{Kind: "massive-fault", Op: "rwalk", Doc: "-", Sched: 5, Fault: "callback", At: 0})
+	for _, op := range append(ops, "rtext", "rmkdir") {
+		k++
+		cases = append(cases, faultCase{Kind: "massive-fault", Op: op, Doc: hx(doc), Text: "4 blocks", Sched: int64(k), Fault: "cancel-cause-before"})
+		cases = append(cases, faultCase{Kind: "massive-fault", Op: op, Doc: hx(doc), Text: "4 blocks", Sched: int64(k), Fault: "deadline-cause-before"})
+	}
+	// many roots with file leaves through massive mkdir (the race detector watches the workers)
+	{
+		var sb strings.Builder
+		for i := 0; i < 40; i++ {
+			fmt.Fprintf(&sb, "- m%d\n  - a\n  - x.go\n  - d\n    - y.go\n    - a\n", i)
+		}
+		for s := 0; s < 3; s++ {
+			k++
+			cases = append(cases, faultCase{Kind: "massive-fault", Op: "mkdir", Doc: hxs(sb.String()), Text: "40 roots with files", Sched: int64(k), Fault: "none", Procs: []int{0, 4, 16}[s]})
+		}
+	}
 	for _, c := range cases {
 		if massiveHangs >= 2 {
 			rep.Notes = append(rep.Notes, "stopped early: massive-mode calls hang")
@@ -975,6 +1002,32 @@ func runC11(ctx *Ctx) *Report {
 		b, _ := json.Marshal(c)
 		rep.Record(c, string(b), c.Fault != "none" || strings.Contains(c.Text, "failing") && !strings.Contains(c.Text, " 0 failing"), diffs)
 		rep.Count("fault:" + c.Fault + "/" + c.Op)
+	}
+	// a process that starts with one processor: the massive mode still returns
+	if massiveHangs < 2 && !rep.Full() {
+		p := startC12Worker("GOMAXPROCS=1")
+		for _, e := range []string{"text", "json", "walk", "dry", "mkdir", "verify"} {
+			for di, d := range []string{"", "- a\n  - b\n- c\n", "- a\n  x\n"} {
+				j := c12job{e, hxs(d)}
+				ans, crash := p.ask(j)
+				var diffs []Diff
+				if ans == "" {
+					diffs = []Diff{{What: "GOMAXPROCS=1: massive-mode entry point " + e + " crashed the process", Real: crash, Model: "returns"}}
+					p.close()
+					p = startC12Worker("GOMAXPROCS=1")
+				} else if ans == "hang" {
+					diffs = []Diff{{What: "GOMAXPROCS=1: massive-mode entry point " + e + " did not return within 15 s", Real: "hang", Model: "returns"}}
+					p.close()
+					p = startC12Worker("GOMAXPROCS=1")
+				}
+				rep.Record(map[string]string{"kind": "one-processor", "entry": e, "doc": d}, "oneproc:"+e+fmtInt(di), true, diffs)
+				rep.Count("one-processor")
+				if len(diffs) > 0 && rep.Full() {
+					break
+				}
+			}
+		}
+		p.close()
 	}
 	knownHits.Lock()
 	for k, v := range knownHits.m {
